@@ -41,9 +41,10 @@ class Trend(Family):
     def configs(self, tier):
         Ls = (2, 3, 4, 5, 6) if tier == "quick" else (2, 3, 4, 5, 6, 8, 10)
         return [{"L": L, "normalized": nz, "via": via} for L in Ls for nz in (False, True) for via in ("process", "weaver")] + \
-               [{"L": 3, "normalized": nz, "via": "weaver-after-history"} for nz in (False, True)]
+               [{"L": 3, "normalized": nz, "via": "weaver-after-history", "kind": k} for nz in (False, True)
+                for k in ("tracked", "reshaped-other-range", "gridded")]
 
-    def run(self, ctx, inst, L, normalized, via):
+    def run(self, ctx, inst, L, normalized, via, kind="tracked"):
         from traffic_weaver import process, Weaver
         xs, ys = ctx.reals("x", L), ctx.reals("y", L)
         increasing(ctx, xs)
@@ -56,8 +57,11 @@ class Trend(Family):
             # a Weaver after an arbitrary domain history (accumulated scale factors arbitrary): the trend still acts on
             # the CURRENT abscissae
             from checks.weaverfam import make_state
-            w = make_state(ctx, L, "tracked").w
+            # (kinds other than "tracked": the working series has its own length and - other-range - its own range, which is
+            #  the one a normalised trend refers to)
+            w = make_state(ctx, L, kind).w
             xs, ys = list(w.x), list(w.y)
+            L = len(xs)
             w.trend(f, normalized=normalized)
             rx, ry = w.get()
         else:
@@ -94,7 +98,8 @@ class ShiftScale(Family):
 
     def configs(self, tier):
         return [{"L": L, "op": op, "state": st} for L in ((2, 3, 5) if tier == "quick" else (2, 3, 5, 8))
-                for op in ("shift_x", "shift_y", "scale_x", "scale_y") for st in ("fresh", "tracked") if st == "fresh" or L == 3]
+                for op in ("shift_x", "shift_y", "scale_x", "scale_y") for st in ("fresh", "tracked", "reshaped-other-range", "int-list", "int64")
+                if st == "fresh" or L == 3]
 
     def run(self, ctx, inst, L, op, state="fresh"):
         from traffic_weaver import Weaver
@@ -105,11 +110,20 @@ class ShiftScale(Family):
             xs, ys = ctx.reals("x", L), ctx.reals("y", L)
             increasing(ctx, xs)
             w = Weaver(arr(ctx, xs), arr(ctx, ys))
+        elif state in ("int-list", "int64"):
+            # integer-typed series, real parameter: nothing may be narrowed back to the series' type
+            import numpy as np
+            ctx.typed_inputs = True
+            xi, yi = [-1, 0, 2], [3, -2, 5]
+            w = Weaver(list(xi), list(yi)) if state == "int-list" else Weaver(np.array(xi, dtype=np.int64), np.array(yi, dtype=np.int64))
+            xs = [ctx.const(v) if ctx.symbolic else float(v) for v in xi]
+            ys = [ctx.const(v) if ctx.symbolic else float(v) for v in yi]
         else:
             # after an arbitrary history: accumulated scale factors are arbitrary
             from checks.weaverfam import make_state
-            w = make_state(ctx, L, "tracked").w
+            w = make_state(ctx, L, state).w
             xs, ys = list(w.x), list(w.y)
+            L = len(xs)
         getattr(w, op)(s)
         rx, ry = w.get()
         for i in range(L):
